@@ -88,17 +88,19 @@ def recheck_sample(task, agg, frac=0.02, cap=60):
     return len(sample)
 
 
-def handle_violation_w(prop, seed, r, args):
-    from .wrun import execute, minimise
+def _minimise_job(prop, seed, r, hermetic):
+    from .wrun import execute, execute_hermetic, minimise
 
     mode = get_mode(prop)
     v = r["violation"]
     cfg, events = v["config"], v["events"]
     t0 = time.time()
-    mcfg, mevents, ok = minimise(mode, cfg, events, v["prop"], v["inv"])
+    mcfg, mevents, ok = minimise(mode, cfg, events, v["prop"], v["inv"], hermetic=hermetic)
     if not ok:
-        raise HarnessError(f"violation of run {r['i']} did not reproduce on in-process replay: {v['inv']} {v['detail']}")
-    vv, idx = execute(mode, mcfg, mevents)
+        return None
+    vv, idx = (execute_hermetic if hermetic else execute)(mode, mcfg, mevents)
+    if vv is None:
+        return None
     payload = {
         "property": prop,
         "engine": "W",
@@ -112,7 +114,29 @@ def handle_violation_w(prop, seed, r, args):
         "minimise_s": round(time.time() - t0, 2),
         "tree_hash": boot.TREE_HASH,
     }
+    if hermetic:
+        payload["note"] = ("minimised with every candidate in its own forked interpreter: in-process shrinking was steered by "
+                           "state the tree keeps across sketch objects / executions")
     return payload
+
+
+def handle_violation_w(prop, seed, r, args, hermetic=False):
+    """Shrinks the failing run. The fast variant runs all candidates in ONE forked child
+    (the check's main process never executes a world before violations are handled, so
+    that it stays a clean base to fork from); the hermetic variant forks per candidate."""
+    from .wrun import in_child
+
+    if hermetic:
+        return _minimise_job(prop, seed, r, True)
+    return in_child(_minimise_job, prop, seed, r, False, timeout=850)
+
+
+def original_payload(prop, seed, r, note):
+    """The failing run exactly as the worker executed it (no shrinking)."""
+    v = r["violation"]
+    return {"property": prop, "engine": "W", "seed": seed, "run_index": r["i"], "invariant": v["inv"], "detail": str(v["detail"]),
+            "config": v["config"], "events": v["events"], "original_event_count": len(v["events"]), "minimise_s": 0.0,
+            "tree_hash": boot.TREE_HASH, "note": note}
 
 
 def verify_replay_fresh(prop, path, inv):
@@ -191,6 +215,7 @@ def run_w(prop, tier, seed, args):
         return 2
     rc = 0
     reported = []
+    unreproduced = []
     seen_classes = set()
     for r in agg.violations:
         cls = (r["violation"]["prop"], r["violation"]["inv"])
@@ -199,27 +224,47 @@ def run_w(prop, tier, seed, args):
         seen_classes.add(cls)
         from .core import Watchdog
 
-        with Watchdog(900, f"minimisation of {prop} run {r['i']}"):
-            payload = handle_violation_w(prop, seed, r, args)
-        known = classify_known(prop, payload)
-        if known is not None:
-            line = f"KNOWN-FINDING: property={prop} {known['what']}"
-            if line not in reported:
-                print(line)
-                reported.append(line)
-            agg.known.append(known["id"])
+        note = ("not minimised: no shrunk candidate failed in a fresh interpreter, i.e. shrinking was steered by interpreter "
+                "state left behind by earlier executions (state shared between sketch objects)")
+        attempts = [lambda: handle_violation_w(prop, seed, r, args), lambda: handle_violation_w(prop, seed, r, args, hermetic=True),
+                    lambda: original_payload(prop, seed, r, note)]
+        ok, path, out, payload, is_known = False, None, "", None, False
+        for attempt in attempts:
+            with Watchdog(900, f"minimisation of {prop} run {r['i']}"):
+                payload = attempt()
+            if payload is None:
+                continue
+            known = classify_known(prop, payload)
+            if known is not None:
+                line = f"KNOWN-FINDING: property={prop} {known['what']}"
+                if line not in reported:
+                    print(line)
+                    reported.append(line)
+                agg.known.append(known["id"])
+                is_known = True
+                break
+            path = write_replay(prop, seed, r["i"], payload)
+            ok, out = verify_replay_fresh(prop, path, payload["invariant"])
+            if ok:
+                break
+        if is_known:
             continue
-        path = write_replay(prop, seed, r["i"], payload)
-        ok, out = verify_replay_fresh(prop, path, payload["invariant"])
         if not ok:
-            print(f"HARNESS-ERROR minimised replay {path} did not reproduce in a fresh interpreter:\n{out}",
-                  file=sys.stderr)
-            return 2
+            unreproduced.append(f"replay {path} of run {r['i']} ({cls[1]}) did not reproduce in a fresh interpreter:\n{out}")
+            continue
         print(f"VIOLATION property={prop} replay={path}")
         print(f"  invariant={payload['invariant']} run={r['i']} seed={seed} events={len(payload['events'])} "
               f"(from {payload['original_event_count']})")
         print(f"  detail: {payload['detail']}")
         rc = 1
+    if unreproduced:
+        # a failure that only exists in the pooled worker's interpreter (it depends on what
+        # earlier runs left behind there). With a reproducible violation already reported it
+        # is a footnote; on its own it means the check itself cannot be trusted: exit 2.
+        for u in unreproduced:
+            print(("NOTE " if rc == 1 else "HARNESS-ERROR ") + u, file=sys.stderr)
+        if rc == 0:
+            return 2
     if rc == 0 and hasattr(mode, "batch_check"):
         bad = mode.batch_check(agg, seed)
         if bad is not None:
